@@ -164,7 +164,7 @@ destinations = %(all)s
 
 
 def dest_str(d):
-  return '%s:%d:%s' % d
+  return '%s:%d:%s' % tuple(d) if d[2] is not None else '%s:%d' % tuple(d[:2])
 
 
 class Relay(evx.System):
@@ -173,7 +173,7 @@ class Relay(evx.System):
   def __init__(self, p):
     self.p = p
     self.ndest = p.get('ndest', 2)
-    self.dests = DESTS[:self.ndest]
+    self.dests = [tuple(d) for d in p['dests']] if p.get('dests') else DESTS[:self.ndest]
     self.metrics = p.get('metrics', ('m', 'n', 'b'))
     self.with_receivers = p.get('receivers', False)
     self._configured = False
@@ -193,7 +193,11 @@ class Relay(evx.System):
     settings['DESTINATION_PROTOCOL'] = p.get('protocol', 'pickle')
     settings['DESTINATION_POOL_REPLICAS'] = False
     settings['DESTINATIONS'] = [dest_str(d) for d in self.dests]
-    settings['RELAY_METHOD'] = 'rules'
+    settings['RELAY_METHOD'] = p.get('relay_method', 'rules')
+    if p.get('hash_type'):
+      settings['ROUTER_HASH_TYPE'] = p['hash_type']
+      settings['REPLICATION_FACTOR'] = p.get('rf', 1)
+      settings['DIVERSE_REPLICAS'] = False
     settings['TAG_RELAY_NORMALIZED'] = False
     settings['USE_RATIO_RESET'] = bool(p.get('ratio_reset'))
     settings['MIN_RESET_STAT_FLOW'] = 1
